@@ -363,14 +363,14 @@ def _planted(ur):
 for _name, _kinds, _rule in [
         ("C05", {"dup": "multi:"}, "two sources for one type"),
         ("C06", {"missing": ("noprov:", "bindmissing:")}, "a needed source removed"),
-        ("C08", {"unused": "unused"}, "a superfluous direct item")]:
+        ("C08", {"unused": "unused", "twinunused": "unusedprov:"}, "a superfluous direct item")]:
     _unit_nt = {"C05": _nt_dups, "C06": _nt_missing, "C08": _nt_unused}[_name]
     register(_name,
              "unit tier: random provider-set DAGs through the real buildProviderMap/verifyAcyclic/solve (see planner streams); "
              "e2e tier: generated Go programs with a planted defect (%s) run through the real wire binary, diagnostics classified "
              "and compared with the model's verdict; non-trivial = the defect is present" % _rule,
              [planner_part(_name, _unit_nt),
-              e2e_part(_name, [("x", {"plant": list(_kinds), "units": [1, 2]})], _pairs_plan, set(), _planted,
+              e2e_part(_name, [("x", {"plant": list(_kinds), "units": [1, 2], "p_twin": 0.6})], _pairs_plan, set(), _planted,
                        n_quick=60, n_thorough=600, build=False, runit=False, extra=_planted_oracle(_kinds))])
 
 register("C09",
